@@ -188,6 +188,14 @@ with SqliteImpl.impl_store.impl_manager as impl:
     def _str_to_datetime(x):
         return sqa.type_coerce(x, sqa.DateTime)
 
+    @impl(ops.sub, Datetime(), Datetime())
+    def _sub_datetime(lhs, rhs):
+        raise NotSupportedError("SQLite has no duration type, so datetimes cannot be subtracted.")
+
+    @impl(ops.sub, Date(), Date())
+    def _sub_date(lhs, rhs):
+        raise NotSupportedError("SQLite has no duration type, so dates cannot be subtracted.")
+
     @impl(ops.str_to_date)
     def _str_to_date(x):
         # like str_to_datetime: SQLite stores dates as ISO strings, a CAST to DATE would
